@@ -201,7 +201,7 @@ def run(model, rep, tier):
     rep.check(defs.get("rrlen") == ["struct.pack('!H', len(rdata))"], "R-15.3", sd.qualname, where(sd, sd.node), "u16 rdlength", f"rrlen = {defs.get('rrlen')}", stmt="rr-len")
     rep.check(defs.get("wire") == ["rrsig.to_wire(origin=signer)"], "R-15.3", sd.qualname, where(sd, sd.node), "RRSIG RDATA prefix taken from the RRSIG itself", f"wire = {defs.get('wire')}", stmt="rrsig-prefix")
     t = " ".join(src(sdn).split())
-    rep.check("elif rrsig.labels < name_len - 1: suffix = rrname.split(rrsig.labels + 1)[1] rrname = dns.name.from_text('*', suffix)" in t, "R-15.3", sd.qualname, where(sd, sd.node),
+    rep.check(pat.has(sdn, "if rrsig.labels < name_len - 1:\n    suffix = rrname.split(rrsig.labels + 1)[1]\n    rrname = dns.name.from_text('*', suffix)"), "R-15.3", sd.qualname, where(sd, sd.node),
               "wildcard reduction: owner replaced by *.<rightmost `labels` labels>", "wildcard label reduction changed", stmt="wildcard")
     mk = model.func("dns.dnssec.make_ds")
     mkn, _ = pat.canon(mk.node, ["__dshash = hashlib.sha1()", "__wire = name.canonicalize().to_wire()", "__kwire = key.to_wire(origin=origin)", "__digest = __dshash.digest()", "__dsrdata = struct.pack('!HBB', ...) + __digest",
